@@ -67,16 +67,29 @@ def r1(ctx):
             ok = o.kind == "raise" and o.exc_class == "builtins.ValueError"
         elif o.kind == "return" and isinstance(o.value, Tup) and len(o.value.items) == 4:
             h, p, r, s = o.value.items
-            cls = f"{scheme}:port={'explicit' if port_t else 'default'}:path={'set' if path_t else 'empty'}:query={'set' if query_t else 'none'}"
-            want_p = Sym("p.port", "int") if port_t else C(80 if scheme == "ws" else 443)
-            want_r = [Sym("p.path", "str") if path_t else C("/")]
-            if query_t:
-                want_r += [C("?"), Sym("p.query", "str")]
             from ..values import concat
-            wr = concat(want_r, "str")
-            ok = h == Sym("p.hostname", "str") and I.resolve(run, p) == want_p and r.key() == wr.key() and s == C(scheme == "wss")
-            if not ok:
-                cls += f" got ({h!r}, {p!r}, {template_text(r)}, {s!r})"
+            # a fact the code never tested on this path covers both of its values: the result must be right for each
+            subcases = [(pt_, pa_, qu_) for pt_ in ([port_t] if port_t is not None else [True, False])
+                        for pa_ in ([path_t] if path_t is not None else [True, False])
+                        for qu_ in ([query_t] if query_t is not None else [True, False])]
+            ok = True
+            cls = ""
+            for pt_, pa_, qu_ in subcases:
+                c1 = f"{scheme}:port={'explicit' if pt_ else 'default'}:path={'set' if pa_ else 'empty'}:query={'set' if qu_ else 'none'}"
+                want_p = Sym("p.port", "int") if pt_ else C(80 if scheme == "ws" else 443)
+                want_r = [Sym("p.path", "str") if pa_ else C("/")]
+                if qu_:
+                    want_r += [C("?"), Sym("p.query", "str")]
+                wr = concat(want_r, "str")
+                ok1 = h == Sym("p.hostname", "str") and I.resolve(run, p) == want_p and r.key() == wr.key() and s == C(scheme == "wss")
+                seen.add(c1)
+                if not ok1:
+                    ok = False
+                    cls = c1 + f" got ({h!r}, {p!r}, {template_text(r)}, {s!r})"
+                    ctx.ob(f"{PU}:{c1}", False, f"class {cls}: expected resource {template_text(wr)} and port {want_p!r}", loc, {"path": path_text(o)})
+                else:
+                    ctx.ob(f"{PU}:{c1}", True, c1, loc)
+            continue
         else:
             cls = f"{scheme}:unexpected {o.kind} {o.exc_class}"
             ok = False
